@@ -444,7 +444,9 @@ func (e *Exec) optionsOf(t *Task, out []transition) []transition {
 			out = append(out, transition{t: t, variant: -1, pcase: -1})
 		}
 	case opRLock:
-		if o.mu.writer == nil {
+		// sync.RWMutex gives a blocked writer precedence: once a writer waits for the readers to
+		// leave, new readers queue behind it (which is why recursive read locking can deadlock)
+		if o.mu.writer == nil && !e.writerBlockedOn(o.mu, t) {
 			out = append(out, transition{t: t, variant: -1, pcase: -1})
 		}
 	case opWaitZero:
@@ -457,6 +459,19 @@ func (e *Exec) optionsOf(t *Task, out []transition) []transition {
 		}
 	}
 	return out
+}
+
+// writerBlockedOn: is some other task parked in Lock() on mu while mu is held (by readers or a writer)?
+func (e *Exec) writerBlockedOn(mu *lockState, self *Task) bool {
+	if mu.readers == 0 && mu.writer == nil {
+		return false
+	}
+	for _, t := range e.tasks {
+		if t != self && !t.done && t.pend != nil && t.pend.kind == opLock && t.pend.mu == mu {
+			return true
+		}
+	}
+	return false
 }
 
 // senderWaitingFor: is some other task parked on a send to an unbuffered channel that one of
@@ -691,6 +706,21 @@ func (e *Exec) run(harness func(*H)) {
 		e.steps++
 		if e.steps > e.horizon {
 			e.hitCap = true
+			// an execution of a closed harness that is still taking steps after the horizon has a task
+			// that keeps running without ever waiting (a spin on a closed channel, a retry loop)
+			who := map[string]bool{}
+			for _, tr := range trs {
+				who[e.trString(tr)] = true
+			}
+			var ws []string
+			for w := range who {
+				ws = append(ws, w)
+			}
+			sort.Strings(ws)
+			e.fails = append(e.fails, Failure{
+				Signature: "livelock: the execution is still taking steps after the step horizon (a task keeps running without ever waiting)",
+				Detail:    fmt.Sprintf("horizon %d steps; enabled at the horizon: %s", e.horizon, strings.Join(ws, " | ")),
+			})
 			break
 		}
 		idx := 0
